@@ -107,12 +107,14 @@ def run(ctx, timed_behs, invalid_behs, rng):
     behs = [b for b in timed_behs if len(b["sc"]) == 1] + pick + invalid_behs
     cases = run_vt(ctx, behs, "vt-behaviours")
     report(ctx, cases, behs, "vt-behaviours")
+    tc.mech_pass(ctx, cases, behs, label="vt-behaviours")
     # sweep: contents / lengths / ciphers / key-list sizes / replay cache: the close instant must be the same
     sw = sweep(nofin + timed_behs, rng, q)
     if len(sw) < 40:
         raise vlib.Inconclusive("virtual-time sweep: only %d instantiated behaviours" % len(sw))
     scases = run_vt(ctx, sw, "vt-sweep")
     report(ctx, scases, sw, "vt-sweep")
+    tc.mech_pass(ctx, scases, sw, label="vt-sweep")
     inst = collections.Counter()
     for c in scases + cases:
         if c["hs"] != "valid" and not c["cfin"] and c["closeAt"] >= 0:
